@@ -484,3 +484,4 @@ def r8(idx, rep):
             return self.rep.check(cond, "R8", key, detail, where)
 
     c14.r1(idx, Proxy(rep), "quick")
+    c14.r2(idx, Proxy(rep))
